@@ -152,6 +152,7 @@ pub fn c13() -> PropDef {
         adjust: no_adjust,
         assumptions: COMMON_ASSUMPTIONS,
         tiny: no_tiny,
+        long: Some(({ let mut c = GenCfg::long_sched(); c.terms = vec![TermClass::Collect, TermClass::CollectIntoPrefixed, TermClass::CollectX, TermClass::ShortCircuit]; c }, 100, 1000)),
     }
 }
 
@@ -319,5 +320,6 @@ pub fn c14() -> PropDef {
         adjust: no_adjust,
         assumptions: COMMON_ASSUMPTIONS,
         tiny: no_tiny,
+        long: None,
     }
 }
